@@ -124,6 +124,22 @@ def mutants(text, quick=False, rich_add=None, add=True):
                     r = clone()
                     at(r, path).set(a, n)
                     yield "%s: retarget %s -> %s" % (lab, a, n), "retarget:%s.%s" % (tagname, local(a)), serialize(r)
+        if add and not (e.text and e.text.strip()):
+            for t in ("abc", "1"):          # text where the schema language expects none (or a constant)
+                r = clone()
+                at(r, path).text = t
+                yield "%s: add text %r" % (lab, t), "text-add:%s" % tagname, serialize(r)
+        if add:
+            for t in TAGS:                  # a minimal child of every known tag, appended and prepended
+                for where in ("append", "prepend"):
+                    r = clone()
+                    el = at(r, path)
+                    ch = ET.Element(t, {"name": "zz9", "id": "99", "type": "uint8", "primitiveType": "uint8", "encodingType": "uint8"})
+                    if where == "append":
+                        el.append(ch)
+                    else:
+                        el.insert(0, ch)
+                    yield "%s: %s child <%s>" % (lab, where, t), "child-add:%s+%s" % (tagname, t), serialize(r)
         if e.text and e.text.strip():
             for t in toks:
                 r = clone()
